@@ -46,7 +46,7 @@ RULE = ("per thread a random program tree (nesting <= 4 pushing levels, <= 14 op
         "fill_context inside and outside an extraction, extract_child with and without for_task; 1-4 real threads stepped "
         "operation by operation through a sampled interleaving (uniform shuffles, round-robin, block-wise); kind 'exh': all "
         "interleavings (enumerated, and checked in Coq against M_Options.schedules_of) of small program sets "
-        "(quick: 2 threads <= 4+4 ops; thorough: all pairs of a 12-program catalogue up to 6+6 ops and 3-thread sets up to 3+3+3). "
+        "(quick: 2 threads <= 4+4 ops and one 6+4; thorough: all ordered pairs of a 12-program catalogue up to 6+6 ops, seven 3-thread sets of 3+3+3 ops and one 4-thread set). "
         "distinct = distinct (programs, schedule); non-trivial = some thread nests two pushing calls or leaves one by "
         "exception or >= 2 threads perform operations")
 CONFIG = dict(
@@ -224,7 +224,7 @@ def specials():
 def make_inputs(tier, seed):
     rng = random.Random(seed * 7919 + 13)
     yield from specials()
-    n = 1500 if tier == "quick" else 7000
+    n = 1500 if tier == "quick" else 6000
     for i in range(n):
         nt = rng.choice([1, 2, 2, 3, 3, 4])
         budget = {1: 14, 2: 12, 3: 9, 4: 7}[nt]
@@ -242,13 +242,14 @@ def make_inputs(tier, seed):
             yield {"_kind": "exh", "threads": [a, b]}
         yield {"_kind": "exh", "threads": [CATALOGUE[7], CATALOGUE[2]]}
     else:
-        for a, b in itertools.product(CATALOGUE, repeat=2):
-            if nops(a) + nops(b) <= 12:
+        for (i, a), (j, b) in itertools.product(enumerate(CATALOGUE), repeat=2):
+            # ordered pairs; the largest ones (6+6 operations, 924 interleavings) unordered only
+            if nops(a) + nops(b) < 12 or i <= j:
                 yield {"_kind": "exh", "threads": [a, b]}
         tiny = [[E(FT, [CT])], [E(TF, [R], exc="base")], [["fill", "none", [CT]]], [E(TT, [CT], how="outermost", exc="exc", hook="unwrap")]]
-        for tr in itertools.combinations_with_replacement(range(len(tiny)), 3):
+        for tr in list(itertools.combinations(range(len(tiny)), 3)) + [(0, 0, 1), (1, 2, 2), (3, 3, 3)]:
             yield {"_kind": "exh", "threads": [tiny[i] for i in tr]}
-        yield {"_kind": "exh", "threads": [[E(FT, [CT])], [E(TF, [R])], [E(TT, [CT])], [CT]]}
+        yield {"_kind": "exh", "threads": [[E(FT, [CT])], [E(TF, [R], exc="base")], [CT, R], [CT]]}
 
 
 # ----------------------------------------------------------------- running the implementation
